@@ -103,6 +103,14 @@ def syncTok (acc : St × List String) (tok : String) : St × List String :=
 def step (line : String) : String :=
   let ws := words line
   match ws with
+  | "rs" :: _ =>
+    -- unsubscribe drops the channel's pending batch (`delWriter(ch, false)`), so the recovering
+    -- resubscribe gets T+1..T+n in its reply and nothing stale afterwards
+    match kvNat ws "top", kvNat ws "n" with
+    | some top, some n =>
+      let offs := (List.range n).map (fun i => toString (top + i + 1))
+      s!"rs pubs={joinWith "," offs} late=-"
+    | _, _ => "bad-op"
   | "sync" :: toks =>
     let (_, out) := toks.foldl syncTok (({ inHub := true } : St), [])
     joinWith " " out
